@@ -19,7 +19,11 @@ RULE = ("bin/cmp/iop: every operator x operand-kind pair (S P E on either side, 
         "of leaf fibers over n coordinates x {absent, explicit default, v, -v} for + * += *=, all such "
         "fibers x scalars x declared/estimated shape for scalar forms, seeded random leaf fibers and "
         "2-level trees (free / tensor-owned, default 0 or 7, empty sub-fibers); leaf operands also with an active "
-        "range narrower than / offset from the shape (constructor, setActive, splitUniform partitions). non-trivial = a box case "
+        "range narrower than / offset from the shape (constructor, setActive, splitUniform partitions), rank format U "
+        "(own rank attributes / Tensor.setFormat, mixed with C), different declared shapes on the two operands, fibers "
+        "built with another default than their tensor's, the operation applied twice, a Metrics bracket around the "
+        "operation or around the construction, an operand that grew between two queries, boxed / doubly boxed / "
+        "element scalars, lazy right operands, tuple coordinates from flattenRanks, multi-digit coordinates. non-trivial = a box case "
         "with a box or element operand whose value operator does not raise, or a fiber case with a "
         "non-empty left operand and (a non-empty right operand or a scalar)")
 
@@ -59,6 +63,8 @@ def tok(v):
 def untok(t):
     if isinstance(t, int):
         return t
+    if t.startswith("b:"):
+        return bool(int(t[2:]))
     assert t.startswith("f:"), t
     return float.fromhex(t[2:])
 
@@ -133,6 +139,47 @@ def _gen_boxes(rng, tier):
                     yield _box_case("iop", op, ka, kb, x, y)
             for x, _ in _value_pairs(op, rng, nrand):
                 yield _box_case("iop", op, ka, ka, x, x, alias=True)
+
+
+def _gen_box_extras(rng, tier):
+    """the same operator x kind table again with (a) the operation inside a Metrics bracket (operands
+    built before it), (b) a doubly wrapped box Payload(Payload(v)) on either side, (c) bool values"""
+    pairs = [(12, 5), (-7, 0), (0.5, 3), (2 ** 70 + 3, -1)]
+    bools = [(True, False), (True, 3), (0, True)]
+    for fam, ops in (("bin", BINOPS), ("cmp", CMPOPS)):
+        for op in ops:
+            for ka, kb in KIND_PAIRS:
+                vals = [p_ for p_ in pairs if op not in ("shl", "band", "bor") or
+                        (isinstance(p_[0], int) and isinstance(p_[1], int) and (op != "shl" or 0 <= p_[1] < 80))]
+                for x, y in vals[:3]:
+                    c = _box_case(fam, op, ka, kb, x, y)
+                    c["metrics"] = "op"
+                    yield c
+                for x, y in vals[:2]:
+                    for dbl in ("a", "b", "ab"):
+                        if ("a" in dbl and ka != "P") or ("b" in dbl and kb != "P"):
+                            continue
+                        c = _box_case(fam, op, ka, kb, x, y)
+                        c["dbl"] = dbl
+                        yield c
+                if op in ("band", "bor", "add", "mul", "eq", "ne", "lt"):
+                    for x, y in bools:
+                        yield _box_case(fam, op, ka, kb, x, y)
+    for ka in "PE":
+        for op in IOPS:
+            for kb in KINDS:
+                for x, y in pairs[:3]:
+                    c = _box_case("iop", op, ka, kb, x, y)
+                    c["metrics"] = "op"
+                    yield c
+                if kb == "P":
+                    c = _box_case("iop", op, ka, kb, 12, 5)
+                    c["dbl"] = "b"
+                    yield c
+            if ka == "P":
+                c = _box_case("iop", op, ka, "S", 12, 5)
+                c["dbl"] = "a"
+                yield c
 
 
 def _leaf_fibers(n, states):
@@ -269,22 +316,167 @@ def _gen_fibers(rng, tier):
             yield _fib_case(op, d, dflt, a, s=rng.choice([1, 2, -3]), kind="owned", shape2=[nn] * (d + 1))
 
 
+def _deco(case, **kw):
+    c = dict(case)
+    c.update({k: v for k, v in kw.items() if v is not None})
+    return c
+
+
+def _relabel(rng, tree, pool):
+    """same fiber, coordinates replaced order-preservingly by a sample of `pool` (9 / 10 / 100 ...)"""
+    cs = sorted(rng.sample(pool, len(tree)))
+    return [[c, p] for c, (_, p) in zip(cs, tree)]
+
+
+def _gen_fiber_extras(rng, tier):
+    tiny = _leaf_fibers(2, [0, 1, -1])          # 16 leaf fibers
+    small = _leaf_fibers(3, [0, 1])             # 27 leaf fibers
+    thorough = tier != "quick"
+    # 1. format "U" set on the unowned fibers' own rank attributes, both / mixed, declared / estimated extent
+    for op in FF_OPS:
+        for i, a in enumerate(small):
+            for k, b in enumerate(small):
+                fa_, fb_ = [("U", "U"), ("U", None), (None, "U")][(i + k) % 3]
+                yield _deco(_fib_case(op, 0, 0, a, b=b, shape=(3 if (i + k) % 2 else None)), fmt=fa_, fmtb=fb_)
+    for op in FS_OPS:
+        for a in _leaf_fibers(3, [0, 1, -1]):
+            for shape in (None, 4):
+                yield _deco(_fib_case(op, 0, 0, a, s=2, shape=shape), fmt="U")
+    inner = [[[c + 1, v] for c, v in f] for f in tiny]     # stored coordinates 1..2, active range (1, 3) of shape 5
+    for op in FF_OPS:
+        for a in inner:
+            for b in inner:
+                yield _deco(_fib_case(op, 0, 0, a, b=b, shape=5, act={"how": "ctor", "lo": 1, "hi": 3},
+                                      actb={"how": "set", "lo": 1, "hi": 4}), fmt="U", fmtb="U")
+    for op in ("smul", "rmul", "ismul", "sadd", "radd", "isadd"):
+        for a in inner:
+            yield _deco(_fib_case(op, 0, 0, a, s=3, shape=5, act={"how": "set", "lo": 1, "hi": 3}), fmt="U")
+    # 2. different declared shapes on the two operands
+    for op in FF_OPS:
+        for a in tiny:
+            for b in tiny:
+                yield _deco(_fib_case(op, 0, 0, a, b=b, shape=2), shapeb=5)
+    # 3. state left behind: the operation twice on the same operands; Metrics bracket around the
+    #    operation / around the construction; a query repeated after the operand grew
+    for op in FF_OPS:
+        for a in tiny:
+            for b in tiny:
+                base = _fib_case(op, 0, 0, a, b=b)
+                yield _deco(base, reps=2)
+                yield _deco(base, metrics="op")
+                yield _deco(base, metrics="build")
+                yield _deco(base, lazyb="sub")          # 5. a lazy right operand
+                yield _deco(base, lazyb="prune")
+    for op in FS_OPS:
+        for a in tiny:
+            for s_ in (2, -1):
+                base = _fib_case(op, 0, 0, a, s=s_, shape=3)
+                yield _deco(base, reps=2)
+                yield _deco(base, metrics="op")
+                yield _deco(base, metrics="build")
+                for sk in ("P", "PP", "E"):              # 4. the scalar boxed / doubly boxed / an element
+                    yield _deco(base, skind=sk)
+    for a in tiny:
+        if a:
+            grown = a + [[a[-1][0] + 2, 5]]
+            for op in ("sadd", "radd", "smul", "rmul"):
+                yield _deco(_fib_case(op, 0, 0, grown, s=2), grow=True)
+            for op in ("add", "mul"):
+                for b in tiny:
+                    yield _deco(_fib_case(op, 0, 0, grown, b=b), grow=True)
+    # 5. tuple coordinates from an earlier flattenRanks() (encoded c0*4+c1)
+    flat = [[[c, v] for c, v in zip((0, 1, 4, 5), combo) if v is not None]
+            for combo in itertools.product([None, 1, -2], repeat=4)]
+    if not thorough:
+        flat = flat[::3]
+    for op in FF_OPS:
+        for a in flat:
+            for b in flat:
+                yield _deco(_fib_case(op, 0, 0, a, b=b), flat=4)
+    # random stream with the same decorations, multi-digit coordinates, owned tensors with mixed formats
+    nrand = 1500 if not thorough else 60000
+    wide = list(range(0, 13)) + [19, 20, 21, 99, 100, 101]
+    for i in range(nrand):
+        d = rng.choice([0, 0, 0, 1, 2])
+        dflt = 0 if rng.random() < 0.8 else 7
+        pool = (1, 2, -3, 7, 0, -1, 4) if dflt == 0 else (1, 2, -3, 7, 0, 3, 4, 14)
+        nn = rng.choice([3, 5, 8]) if d == 0 else rng.choice([3, 4])
+        a = H.gen_tree(rng, d + 1, nn, pool, dflt)
+        b = H.gen_tree(rng, d + 1, nn, pool, dflt)
+        ff = rng.random() < 0.65
+        kw = {}
+        if d == 0:
+            if rng.random() < 0.4:
+                a, b = _relabel(rng, a, wide), _relabel(rng, b, wide)
+                nn = 102
+            shape = rng.choice([None, nn, nn + 3])
+            if dflt == 0 and rng.random() < 0.5:
+                kw["fmt"] = rng.choice(["U", None])
+                kw["fmtb"] = rng.choice(["U", None]) if ff else None
+            if ff and shape is not None and rng.random() < 0.3:
+                kw["shapeb"] = nn + rng.choice([0, 1, 7])
+            r = rng.random()
+            if r < 0.15 and dflt == 0:
+                kw["reps"] = 2
+            elif r < 0.3:
+                kw["metrics"] = rng.choice(["op", "build"])
+            if ff and rng.random() < 0.25:
+                kw["lazyb"] = rng.choice(["sub", "prune"])
+            if ff:
+                yield _deco(_fib_case(FF_OPS[i % 4], 0, dflt, a, b=b, shape=shape), **kw)
+            else:
+                kw["skind"] = rng.choice([None, "P", "PP", "E"])
+                yield _deco(_fib_case(rng.choice(FS_OPS), 0, dflt, a, s=rng.choice([1, -1, 2, 5, dflt]), shape=shape), **kw)
+        else:
+            # tensor-owned trees: formats per rank via Tensor.setFormat, fibers built with their own default
+            if dflt == 0 and rng.random() < 0.6:
+                kw["fmts"] = [rng.choice(["C", "U"]) for _ in range(d + 1)]
+                kw["fmtsb"] = [rng.choice(["C", "U"]) for _ in range(d + 1)]
+            if dflt == 7 and rng.random() < 0.5:
+                kw["bdflt"] = 0
+            if dflt == 0 and rng.random() < 0.2:
+                kw["reps"] = 2
+            declared = rng.random() < 0.5
+            if ff:
+                yield _deco(_fib_case(FF_OPS[i % 4], d, dflt, a, b=b, kind="owned",
+                                      shape2=([nn] * (d + 1) if declared else None)), **kw)
+            else:
+                kw.pop("fmtsb", None)
+                yield _deco(_fib_case(rng.choice(["sadd", "radd", "smul", "rmul"]), d, dflt, a, s=rng.choice([1, 2, -3]),
+                                      kind="owned", shape2=[nn] * (d + 1)), **kw)
+
+
 def gen(seed, tier):
     rng = random.Random(seed)
     yield from _gen_boxes(rng, tier)
+    yield from _gen_box_extras(rng, tier)
     yield from _gen_fibers(rng, tier)
+    yield from _gen_fiber_extras(rng, tier)
 
 
 # ---------------------------------------------------------------------------------------
 # running the real code
 # ---------------------------------------------------------------------------------------
 
-def _mk(kind, v):
-    """(operand, its box or None)"""
+def _bracket(case, thunk):
+    """run `thunk` inside a Metrics collection bracket if the case asks for it (the operands
+    were built before the bracket)"""
+    if case.get("metrics") == "op":
+        M = H.ft().Metrics
+        M.beginCollect()
+        try:
+            return thunk()
+        finally:
+            M.endCollect()
+    return thunk()
+
+
+def _mk(kind, v, dbl=False):
+    """(operand, its box or None); `dbl`: built as Payload(Payload(v))"""
     ft = H.ft()
     if kind == "S":
         return v, None
-    p = ft.Payload(v)
+    p = ft.Payload(ft.Payload(v)) if dbl else ft.Payload(v)
     if kind == "P":
         return p, p
     return ft.CoordPayload(3, p), p
@@ -303,11 +495,11 @@ def _run_bin(case):
     x, y = untok(case["x"]), untok(case["y"])
     fn = BINOPS[case["op"]]
     case["raws"] = {case["op"]: oracle(fn, x, y)}
-    a, ba = _mk(case["ka"], x)
-    b, bb = _mk(case["kb"], y)
+    a, ba = _mk(case["ka"], x, "a" in case.get("dbl", ""))
+    b, bb = _mk(case["kb"], y, "b" in case.get("dbl", ""))
     side = {}
     try:
-        r = fn(a, b)
+        r = _bracket(case, lambda: fn(a, b))
         if isinstance(r, ft.Payload):
             case["impl"] = {"k": "boxed", "v": _boxval(r)}
             side["result_is_fresh_box"] = (r is not ba) and (r is not bb)
@@ -330,10 +522,10 @@ def _run_cmp(case):
     fn = CMPOPS[case["op"]]
     case["raw"] = bool(fn(x, y))
     case["raw_sw"] = bool(CMPOPS[CMPSWAP[case["op"]]](y, x))
-    a, ba = _mk(case["ka"], x)
-    b, bb = _mk(case["kb"], y)
+    a, ba = _mk(case["ka"], x, "a" in case.get("dbl", ""))
+    b, bb = _mk(case["kb"], y, "b" in case.get("dbl", ""))
     try:
-        r = fn(a, b)
+        r = _bracket(case, lambda: fn(a, b))
         if isinstance(r, bool):
             case["impl"] = {"k": "bool", "v": r}
         else:
@@ -353,14 +545,14 @@ def _run_iop(case):
     if op in IOP_BIN:
         raws[IOP_BIN[op]] = oracle(BINOPS[IOP_BIN[op]], x, y)
     case["raws"] = raws
-    a, ba = _mk(case["ka"], x)
+    a, ba = _mk(case["ka"], x, "a" in case.get("dbl", ""))
     if case.get("alias"):
         b, bb = a, ba
     else:
-        b, bb = _mk(case["kb"], y)
+        b, bb = _mk(case["kb"], y, "b" in case.get("dbl", ""))
     side = {}
     try:
-        r = IOPS[op](a, b)
+        r = _bracket(case, lambda: IOPS[op](a, b))
         if r is a and (case["ka"] != "E" or a.payload is ba):
             ret = "same"
         elif r is None:
@@ -381,53 +573,116 @@ def _run_iop(case):
     return case
 
 
-def _build(tree, d, dflt, kind, shape=None, shape2=None):
-    """(fiber, tensor-or-None) through public constructors"""
+def _build(tree, d, dflt, kind, shape=None, shape2=None, bdflt=None, fmts=None):
+    """(fiber, tensor-or-None) through public constructors.  `bdflt`: the default the Fiber objects
+    are built with when it differs from the tensor's; `fmts`: per-rank formats set on the tensor"""
     ft = H.ft()
-    if d == 0:
-        f = ft.Fiber([c for c, _ in tree], [v for _, v in tree], default=dflt, shape=shape)
+    fd = dflt if bdflt is None else bdflt
+    if d == 0 and kind != "owned":
+        f = ft.Fiber([c for c, _ in tree], [v for _, v in tree], default=fd, shape=shape)
         return f, None
-    f = H.build_fiber(tree, d + 1, dflt)
+    f = H.build_fiber(tree, d + 1, fd)
     if kind == "owned":
         ids = [f"R{d - i}" for i in range(d + 1)]
         t = ft.Tensor.fromFiber(rank_ids=ids, fiber=f, default=dflt, shape=shape2)
+        for rid, fm in zip(ids, fmts or []):
+            if fm != "C":
+                t.setFormat(rid, fm)
         return t.getRoot(), t
     return f, None
 
 
+def _unflat(tree, K):
+    """encoded leaf fiber (coordinate c0*K+c1) -> the 2-level tree it is the flattening of"""
+    out = []
+    for c, v in tree:
+        c0, c1 = divmod(c, K)
+        if out and out[-1][0] == c0:
+            out[-1][1].append([c1, v])
+        else:
+            out.append([c0, [[c1, v]]])
+    return out
+
+
+def _enc_snapshot(snap, K):
+    """tuple coordinates [c0, c1] of a snapshot back to the integer encoding"""
+    if not isinstance(snap, list):
+        return snap
+    out = []
+    for e in snap:
+        c, p = e
+        if isinstance(c, list) and len(c) == 2 and all(isinstance(x, int) for x in c):
+            c = c[0] * K + c[1]
+        out.append([c, p])
+    return out
+
+
 def _operand(case, key):
-    """the real operand for case[key], with the active range the case asks for.  For a split
-    partition the model input is what the partition really holds (abstraction of the state
-    before the operation), so case[key] / case["shape"] are overwritten by the observation."""
+    """the real operand for case[key] with the decorations the case asks for (active range,
+    format, own shape, laziness, tuple coordinates from a flatten).  For a split partition the
+    model input is what the partition really holds (abstraction of the state before the
+    operation), so case[key] / case["shape"] are overwritten by the observation."""
     d, dflt, kind = case["d"], case["dflt"], case["kind"]
-    act = case.get("act" if key == "a" else "actb")
-    if act is None or d != 0:
-        return _build(case[key], d, dflt, kind, case.get("shape"), case.get("shape2"))[0]
+    sfx = "" if key == "a" else "b"
     ft = H.ft()
-    if act["how"] == "split":
+    act = case.get("act" + sfx)
+    shape = case.get("shape" + sfx, case.get("shape"))
+    tree = case[key]
+    if case.get("flat"):
+        # tuple coordinates produced by an earlier flattenRanks()
+        two = H.build_fiber(_unflat(tree, case["flat"]), 2, dflt) if tree else None
+        f = two.flattenRanks() if two is not None else ft.Fiber([], [], default=dflt)
+    elif act is not None and act["how"] == "split" and d == 0:
         parent = act["parent"]
-        pf = ft.Fiber([c for c, _ in parent], [v for _, v in parent], default=dflt, shape=case.get("shape"))
+        pf = ft.Fiber([c for c, _ in parent], [v for _, v in parent], default=dflt, shape=shape)
         parts = pf.splitUniform(act["step"])
         f = None
         for c, p in zip(parts.coords, parts.payloads):
             if c == act["step"] * act["part"]:
                 f = p
         if f is None:
-            f = ft.Fiber([], [], default=dflt, shape=case.get("shape"))
+            f = ft.Fiber([], [], default=dflt, shape=shape)
         snap = H.snapshot(f)
         if snap != case[key]:
             case[key] = snap
         shp = f.getShape(all_ranks=False)
         if isinstance(shp, int) and shp != case.get("shape"):
             case["shape"] = shp
-        return f
-    tree = case[key]
-    if act["how"] == "ctor":
-        return ft.Fiber([c for c, _ in tree], [v for _, v in tree], default=dflt, shape=case.get("shape"),
-                        active_range=(act["lo"], act["hi"]))
-    f = ft.Fiber([c for c, _ in tree], [v for _, v in tree], default=dflt, shape=case.get("shape"))
-    f.setActive((act["lo"], act["hi"]))
+    elif act is not None and act["how"] == "ctor" and d == 0:
+        f = ft.Fiber([c for c, _ in tree], [v for _, v in tree], default=dflt, shape=shape,
+                     active_range=(act["lo"], act["hi"]))
+    else:
+        f = _build(tree, d, dflt, kind, shape, case.get("shape2"), case.get("bdflt"),
+                   case.get("fmts" + sfx))[0]
+        if act is not None and act["how"] == "set" and d == 0:
+            f.setActive((act["lo"], act["hi"]))
+    if case.get("fmt" + sfx) and kind != "owned":
+        f.getRankAttrs().setFormat(case["fmt" + sfx])     # an unowned fiber's own rank attributes
     return f
+
+
+def _lazy(case, f):
+    """the right operand as a lazy fiber with the same elements"""
+    ft = H.ft()
+    how = case.get("lazyb")
+    if how == "sub":
+        return f - ft.Fiber([], [], default=case["dflt"])
+    if how == "prune":
+        return f.prune(lambda n, c, p: True)
+    return f
+
+
+def _payload_ids(f, acc=None):
+    """ids of every Payload / Fiber object reachable from a fiber"""
+    ft = H.ft()
+    acc = [] if acc is None else acc
+    acc.append(id(f))
+    for p in f.payloads:
+        if isinstance(p, ft.Fiber):
+            _payload_ids(p, acc)
+        else:
+            acc.append(id(p))
+    return acc
 
 
 def _dense(snap, d, dflt, prefix=()):
@@ -451,46 +706,104 @@ def _dense(snap, d, dflt, prefix=()):
     return out
 
 
+def _scalar_arg(case):
+    """the scalar of a fiber-scalar form: plain, boxed, doubly boxed or an element"""
+    ft = H.ft()
+    v, k = case["s"], case.get("skind")
+    if k == "P":
+        return ft.Payload(v)
+    if k == "PP":
+        return ft.Payload(ft.Payload(v))
+    if k == "E":
+        return ft.CoordPayload(9, v)
+    return v
+
+
+_FNS = {"add": operator.add, "mul": operator.mul, "iadd": operator.iadd, "imul": operator.imul,
+        "sadd": operator.add, "smul": operator.mul, "isadd": operator.iadd, "ismul": operator.imul,
+        "radd": lambda f, s: s + f, "rmul": lambda f, s: s * f}
+
+
 def _run_fiber(case):
     ft = H.ft()
-    op, d, dflt, kind = case["op"], case["d"], case["dflt"], case["kind"]
-    fa = _operand(case, "a")
-    side = {}
+    op, d, dflt = case["op"], case["d"], case["dflt"]
+    K = case.get("flat")
     inplace = op in ("iadd", "imul", "isadd", "ismul")
-    if "b" in case:
-        fb = _operand(case, "b")
-        other = fb
-        before_b = H.snapshot(fb)
+    reps = case.get("reps", 1)
+    side = {}
+
+    def operands():
+        grow = case.get("grow")
+        if grow:
+            # the operand is used once before it grows past its old extent
+            full = case["a"]
+            case["a"] = full[:-1]
+            fa_ = _operand(case, "a")
+            case["a"] = full
+        else:
+            fa_ = _operand(case, "a")
+        if "b" in case:
+            fb_ = _operand(case, "b")
+            other_ = _lazy(case, fb_)
+        else:
+            fb_, other_ = None, _scalar_arg(case)
+        if grow:
+            try:
+                _FNS[op](fa_, other_)
+            except Exception:
+                pass
+            fa_.append(full[-1][0], full[-1][1])
+        return fa_, fb_, other_
+
+    if case.get("metrics") == "build":
+        # operands built inside a bracket, used after it was closed
+        ft.Metrics.beginCollect()
+        try:
+            fa, fb, other = operands()
+        finally:
+            ft.Metrics.endCollect()
     else:
-        other = case["s"]
-        fb = None
+        fa, fb, other = operands()
     before_a = H.snapshot(fa)
-    fn = {"add": operator.add, "mul": operator.mul, "iadd": operator.iadd, "imul": operator.imul,
-          "sadd": operator.add, "smul": operator.mul, "isadd": operator.iadd, "ismul": operator.imul,
-          "radd": lambda f, s: s + f, "rmul": lambda f, s: s * f}[op]
+    before_b = H.snapshot(fb) if fb is not None else None
+    ids_before = set(_payload_ids(fa)) | (set(_payload_ids(fb)) if fb is not None else set())
+    fn = _FNS[op]
     try:
-        r = fn(fa, other)
+        r = _bracket(case, lambda: fn(fa, other))
+        first = H.snapshot(r) if isinstance(r, ft.Fiber) else None
+        for _ in range(reps - 1):
+            r = _bracket(case, lambda: fn(fa, other))
         if not isinstance(r, ft.Fiber):
             case["impl"] = {"err": "ERR:result-not-a-fiber:" + type(r).__name__}
         else:
-            case["impl"] = {"out": H.snapshot(r)}
+            out = H.snapshot(r)
+            case["impl"] = {"out": _enc_snapshot(out, K) if K else out}
             if inplace:
                 side["inplace_returns_self"] = r is fa
             else:
                 side["result_is_new_fiber"] = (r is not fa) and (r is not fb)
                 side["left_operand_unchanged"] = H.snapshot(fa) == before_a
+                if reps > 1:
+                    side["repeated_call_same_result"] = first == out
+                rid = _payload_ids(r)
+                side["result_objects_fresh_and_distinct"] = (not (set(rid) & ids_before)) and len(rid) == len(set(rid))
+                if d == 0:
+                    side["result_default_is_operands"] = ft.Payload.get(r.getDefault()) == ft.Payload.get(fa.getDefault())
+                if d == 0 and case.get("shape") is not None and not K:
+                    side["result_shape_is_operands"] = r.getRankAttrs().getShape() == fa.getShape(all_ranks=False)
     except Exception as e:
         case["impl"] = {"err": H.err_class(e)}
     if fb is not None:
         side["right_operand_unchanged"] = H.snapshot(fb) == before_b
-    if inplace and "out" in case["impl"]:
+    if inplace and "out" in case["impl"] and reps == 1:
         # the property's last clause, measured directly: the in-place form leaves the content
         # that the value-returning form produces on fresh copies of the same operands
         ga = _operand(case, "a")
-        go = _operand(case, "b") if "b" in case else case["s"]
+        go = _lazy(case, _operand(case, "b")) if "b" in case else _scalar_arg(case)
         try:
             v = (ga + go) if op in ("iadd", "isadd") else (ga * go)
-            side["inplace_matches_value_form"] = (_dense(H.snapshot(v), d, dflt) ==
+            vs = H.snapshot(v)
+            side["inplace_matches_value_form"] = (_dense(_enc_snapshot(vs, K) if K else vs, d, dflt) ==
                                                   _dense(case["impl"]["out"], d, dflt))
         except Exception as e:
             side["inplace_matches_value_form"] = False
